@@ -253,7 +253,7 @@ impl<'dbg, H: Typed> FatDieRef<'dbg, H> {
         let location_expr = DwarfLocation(&location).try_as_expression(
             self.debug_info,
             self.unit(),
-            ecx.location().global_pc,
+            ecx.lookup_pc(),
         );
 
         location_expr.and_then(|expr| {
@@ -287,7 +287,7 @@ impl<'dbg> FatDieRef<'dbg, Function> {
         let attr = self.deref()?.frame_base().ok_or(NoFBA)?;
 
         let expr = DwarfLocation(&attr)
-            .try_as_expression(self.debug_info, self.unit(), ecx.location().global_pc)
+            .try_as_expression(self.debug_info, self.unit(), ecx.lookup_pc())
             .ok_or(FBANotAnExpression)?;
 
         let evaluator = ref_resolve_unit_call!(self, evaluator, debugee, self.debug_info.dwarf());
